@@ -6,7 +6,7 @@
 From Coq Require Import List NArith ZArith Bool Arith.
 From LMBase Require Import Res IEEE.
 From LMIo Require Import IoBase IoNom IoJaspar IoUniprobe IoPrint IoBaseProofs IoCheckProofs
-  IoMatrixProofs IoAbs IoChunkU IoC14Proofs IoPrintU IoC14ProofsU.
+  IoMatrixProofs IoAbs IoChunkU IoC14Proofs IoPrintU IoRoundtripU IoC14ProofsU.
 Import ListNotations.
 
 (* ---------- the "schedules" quantifier ---------- *)
@@ -84,17 +84,18 @@ Theorem record_matrix_cells : forall {V} (A : alphabet) (zero : V) value cols i,
   nth i (matrix_of A zero value cols) [] = map (fun k => cell_of A zero value cols i k) (seq 0 (aK A)).
 Proof. exact @matrix_of_nth. Qed.
 
-(* UniPROBE.  Full statement: for every list of records in UniPROBE syntax (any float spelling
-   accepted by nom's `float`: sign, exponent, nan/inf; blank lines before the first record).
-   Proved part (hence _partial): count tokens are canonical decimals  digits+ ['.' digits*]
-   (IoPrintU.wf_dec) for which the oracle parse_f32 (= Rust's str::parse::<f32>, trusted) returns
-   a value; names are any text without CR/LF that trim leaves unchanged and that does not look
-   like a column line; symbol lines in any order and any subset; any number of empty lines after
-   each record; LF or CRLF; rows must pass FrequencyMatrix::new's tolerance test (computed in
-   binary32).  The other float spellings are covered by the correspondence check only. *)
-Theorem reader_roundtrip_uniprobe_partial : forall A parse_f32 rs s,
-  wf_alphabet A -> forallb (wf_uniprobe A parse_f32) rs = true ->
-  wf_stream s -> stream_bytes s = print_file print_uniprobe [] rs [] ->
+(* UniPROBE: every list (possibly empty) of records meeting IoPrintU.wf_uniprobe: names = any text
+   without CR/LF that trim leaves unchanged and that does not look like a column line; symbol
+   lines in any order and any subset; frequency tokens of nom's decimal float grammar
+   SIGN? (DIGITS ('.' DIGITS?)? | '.' DIGITS) ([eE] SIGN? DIGITS)? for which the oracle parse_f32
+   (= Rust's str::parse::<f32>, trusted) returns a value; any number of empty lines after each
+   record; LF or CRLF; rows passing FrequencyMatrix::new's tolerance test (computed in binary32).
+   [prefix]: any white-space-only complete lines before the first record (wf_blank_prefix).
+   Not in the theorem (correspondence check only): nan/inf spellings (such rows never pass the
+   tolerance test). *)
+Theorem reader_roundtrip_uniprobe : forall A parse_f32 prefix rs s,
+  wf_alphabet A -> wf_blank_prefix prefix = true -> forallb (wf_uniprobe A parse_f32) rs = true ->
+  wf_stream s -> stream_bytes s = print_file print_uniprobe prefix rs [] ->
   uniprobe_read A parse_f32 s
   = map (fun p => Ok (Some (record_of A F32.zero (fvalue parse_f32) (snd p)))) rs ++ [Ok None].
 Proof. exact uniprobe_roundtrip_lemma. Qed.
@@ -151,22 +152,24 @@ Example roundtrip_instance16 :
   /\ rmatrix (record_of Dna 0%N dec_value ex_rec16) = [[1; 0; 7; 0; 0]; [2; 0; 8; 0; 0]]%N.
 Proof. vm_compute. split; reflexivity. Qed.
 
-(* UniPROBE: name "M 1", lines T and A with 0.75 / 0.25, one empty line after the record *)
+(* UniPROBE: name "M 1", lines T and A with +7.5e-1 / 0.25, one empty line after the record *)
 Definition ex_oracle (t : list N) : option F32.t :=
-  if list_eqb t [48; 46; 55; 53]%N then Some (F32.of_bits 1061158912)       (* "0.75" *)
+  if list_eqb t [43; 55; 46; 53; 101; 45; 49]%N then Some (F32.of_bits 1061158912)  (* "+7.5e-1" *)
   else if list_eqb t [48; 46; 50; 53]%N then Some (F32.of_bits 1048576000)  (* "0.25" *)
   else None.
 Definition ex_ustyle : style :=
   {| y_crlf := false; y_hsep := []; y_lead := []; y_sep := []; y_sym := []; y_tail := []; y_post := []; y_gap := 1 |}.
 Definition ex_urec : src :=
   {| sid := [77; 32; 49]%N; sdesc := None;
-     scols := [(84, [[48; 46; 55; 53]; [48; 46; 50; 53]]); (65, [[48; 46; 50; 53]; [48; 46; 55; 53]])]%N |}.
+     scols := [(84, [[43; 55; 46; 53; 101; 45; 49]; [48; 46; 50; 53]]);
+               (65, [[48; 46; 50; 53]; [43; 55; 46; 53; 101; 45; 49]])]%N |}.
 
-Example wf_uniprobe_example : wf_uniprobe Dna ex_oracle (ex_ustyle, ex_urec) = true.
-Proof. vm_compute. reflexivity. Qed.
+Example wf_uniprobe_example :
+  wf_uniprobe Dna ex_oracle (ex_ustyle, ex_urec) = true /\ wf_blank_prefix [10; 32; 9; 13; 10]%N = true.
+Proof. vm_compute. split; reflexivity. Qed.
 
 Example roundtrip_instance_uniprobe :
-  let file := print_file print_uniprobe [] [(ex_ustyle, ex_urec); (ex_ustyle, ex_urec)] [] in
+  let file := print_file print_uniprobe [10; 32; 9; 13; 10]%N [(ex_ustyle, ex_urec); (ex_ustyle, ex_urec)] [] in
   uniprobe_read Dna ex_oracle (mk_stream (chunk_sizes (repeat 2 (length file)) file))
   = [Ok (Some (record_of Dna F32.zero (fvalue ex_oracle) ex_urec));
      Ok (Some (record_of Dna F32.zero (fvalue ex_oracle) ex_urec)); Ok None].
